@@ -130,3 +130,31 @@ def empty_map(key_kind, val_kind):
 
 def empty_seq(elem_kind):
     return []
+
+
+# ---- networkx (A-nx): the mathematical notions on the edge set
+def nx_desc(graph, node):
+    import networkx as nx
+    return set(nx.descendants(graph, node))
+
+
+def nx_anc(graph, node):
+    import networkx as nx
+    return set(nx.ancestors(graph, node))
+
+
+def nx_has_path(graph, a, b):
+    import networkx as nx
+    return nx.has_path(graph, a, b)
+
+
+def set_with(s, x):
+    return set(s) | {x}
+
+
+def set_union(a, b):
+    return set(a) | set(b)
+
+
+def empty_set(elem_kind):
+    return set()
